@@ -202,8 +202,12 @@ _FORBIDDEN = (ast.Yield, ast.YieldFrom, ast.Await, ast.Try, ast.With, ast.AsyncW
               ast.NamedExpr) + tuple(getattr(ast, n) for n in ("Match", "TryStar") if hasattr(ast, n))
 
 
-def _simple_effects(stmts):
-    """statement-level effects limited to: assignments to plain names, name.append(x), control flow"""
+def _simple_effects(stmts, calls=None):
+    """statement-level effects limited to: assignments to plain names, name.append(x), control flow; a call statement
+    `f(x)` on a plain name is admitted provisionally: `calls` collects such names and the loop driver checks at run time
+    that each is the bound `append` of a list (an alias like `add = out.append`)"""
+    if calls is None:
+        calls = set()
     for st in stmts:
         if isinstance(st, (ast.Pass, ast.Break, ast.Continue, ast.Return, ast.Raise, ast.Assert)):
             continue
@@ -217,7 +221,7 @@ def _simple_effects(stmts):
                 continue
             return False
         if isinstance(st, ast.If):
-            if _simple_effects(st.body) and _simple_effects(st.orelse):
+            if _simple_effects(st.body, calls) and _simple_effects(st.orelse, calls):
                 continue
             return False
         if isinstance(st, ast.Expr):
@@ -227,9 +231,12 @@ def _simple_effects(stmts):
             if isinstance(v, ast.Call) and isinstance(v.func, ast.Attribute) and v.func.attr == "append" \
                     and isinstance(v.func.value, ast.Name) and len(v.args) == 1 and not v.keywords:
                 continue
+            if isinstance(v, ast.Call) and isinstance(v.func, ast.Name) and len(v.args) == 1 and not v.keywords:
+                calls.add(v.func.id)
+                continue
             return False
         if isinstance(st, (ast.For, ast.While)):
-            if _simple_effects(st.body) and _simple_effects(st.orelse):
+            if _simple_effects(st.body, calls) and _simple_effects(st.orelse, calls):
                 continue
             return False
         return False
@@ -368,11 +375,13 @@ class LoopDesugar:
         fdef = ast.FunctionDef(name=fname, args=fargs, body=fbody, decorator_list=[], returns=None, type_comment=None)
         if hasattr(ast, "TypeVar"):
             fdef.type_params = []
-        generic_ok = _simple_effects(st.body)
+        stmt_calls = set()
+        generic_ok = _simple_effects(st.body, stmt_calls)
         call = ast.Assign(targets=[ast.Name(id=rname, ctx=ast.Store())],
                           value=_call("__pyvc_for__", st.iter, _name(fname),
                                       ast.Tuple(elts=[ast.Constant(value=n) for n in carried], ctx=ast.Load()),
-                                      ast.Constant(value=generic_ok)))
+                                      ast.Constant(value=generic_ok),
+                                      ast.Tuple(elts=[ast.Constant(value=n) for n in sorted(stmt_calls)], ctx=ast.Load())))
         out = [fdef, call]
         if rw.has_return:
             out.append(ast.If(test=_call("__pyvc_isret__", _name(rname)),
